@@ -130,8 +130,12 @@ fn set_values(
             (RV::Ip(IpAddr::V4(a)), 0) => ffi::wirefilter_add_ipv4_value_to_execution_context(ctx, np, nl, &a.octets()),
             (RV::Ip(IpAddr::V6(a)), 0) => ffi::wirefilter_add_ipv6_value_to_execution_context(ctx, np, nl, &a.octets()),
             _ => {
-                let js = serde_json::to_string(&v.to_json()).unwrap();
-                ffi::wirefilter_add_json_value_to_execution_context(ctx, np, nl, js.as_ptr(), js.len())
+                let mut js = serde_json::to_string(&v.to_json()).unwrap().into_bytes();
+                let ok = ffi::wirefilter_add_json_value_to_execution_context(ctx, np, nl, js.as_ptr(), js.len());
+                // the JSON text is lent for the duration of the call only
+                js.iter_mut().for_each(|b| *b = b'#');
+                drop(js);
+                ok
             }
         };
         if !ok {
@@ -511,7 +515,14 @@ pub fn run(run: &Run) {
                 }
                 let doc = serde_json::to_string(&serde_json::Value::Object(part)).unwrap();
                 ffi::wirefilter_clear_last_error();
-                let ok_c = ffi::wirefilter_deserialize_json_to_execution_context(&mut ctx, doc.as_ptr(), doc.len());
+                // the buffer is lent for the duration of the call only
+                let ok_c = {
+                    let mut lent: Vec<u8> = doc.as_bytes().to_vec();
+                    let ok = ffi::wirefilter_deserialize_json_to_execution_context(&mut ctx, lent.as_ptr(), lent.len());
+                    lent.iter_mut().for_each(|b| *b = b'#');
+                    drop(lent);
+                    ok
+                };
                 let ok_r = {
                     let mut de = serde_json::Deserializer::from_str(&doc);
                     (&mut mirror).deserialize(&mut de).is_ok()
